@@ -9,20 +9,21 @@ from __future__ import annotations
 import datetime as _dt
 
 DAYS_IN_MONTH = [31, 28, 31, 30, 31, 30, 31, 31, 30, 31, 30, 31]  # non-leap, independent of the tool's table
+DAYS_IN_MONTH_LEAP = [31, 29, 31, 30, 31, 30, 31, 31, 30, 31, 30, 31]
 DAY_NAMES = ("first", "second", "mid", "penult", "last")
 SHAPES = ("1h", "6h", "30h")
 
 
-def month_start_hour(m0: int) -> int:
+def month_start_hour(m0: int, dim=None) -> int:
     """0-based hour-of-year index at which calendar month m0 (0..11) starts"""
-    return 24 * sum(DAYS_IN_MONTH[:m0])
+    return 24 * sum((dim or DAYS_IN_MONTH)[:m0])
 
 
-def month_end_hours(n_months: int):
+def month_end_hours(n_months: int, dim=None):
     """cumulative hours at the end of simulated months 1..n (months repeat every 12)"""
     out, acc = [], 0
     for i in range(n_months):
-        acc += 24 * DAYS_IN_MONTH[i % 12]
+        acc += 24 * (dim or DAYS_IN_MONTH)[i % 12]
         out.append(acc)
     return out
 
@@ -81,13 +82,14 @@ def build_profile(patterns) -> list:
     return loads
 
 
-def monthly_reference(loads):
-    """independent monthly statistics of an 8760-h profile: per calendar month
+def monthly_reference(loads, dim=None):
+    """independent monthly statistics of an 8760-h (8784-h with the leap table) profile: per calendar month
     (rejection kWh, extraction kWh, peak rejection kW, peak extraction kW, 0-based day of first peak rejection / extraction)"""
     out = []
+    dim = dim or DAYS_IN_MONTH
     for m0 in range(12):
-        s = month_start_hour(m0)
-        seg = loads[s : s + 24 * DAYS_IN_MONTH[m0]]
+        s = month_start_hour(m0, dim)
+        seg = loads[s : s + 24 * dim[m0]]
         rej = [(-x / 1000.0) if x < 0 else 0.0 for x in seg]
         ext = [(x / 1000.0) if x >= 0 else 0.0 for x in seg]
         pr, pe = max(rej), max(ext)
